@@ -496,3 +496,105 @@ Qed.
 
 Lemma child_nonref : forall lk d c, ref_key c = None -> child_spec lk d c = [expand lk d c].
 Proof. intros lk d c R. unfold child_spec. rewrite R. reflexivity. Qed.
+
+(* ---------- size ------------------------------------------------------------------------------ *)
+
+Lemma tsize_T : forall i n kids, tsize (T i n kids) = S (tsize_l kids).
+Proof. reflexivity. Qed.
+
+Lemma nrefs_T : forall i n kids,
+  nrefs (T i n kids) = (if is_ref_node n then 1 else 0) + fold_right (fun c a => nrefs c + a) 0 kids.
+Proof. reflexivity. Qed.
+
+Definition sum_by {X} (w : X -> nat) (l : list X) : nat := fold_right (fun x n => w x + n) 0 l.
+
+Lemma sum_by_app : forall {X} (w : X -> nat) l1 l2, sum_by w (l1 ++ l2) = sum_by w l1 + sum_by w l2.
+Proof. intros X w l1 l2. induction l1; simpl; [reflexivity | rewrite IHl1; lia]. Qed.
+
+Lemma sum_by_map : forall {X Y} (g : X -> Y) (w : Y -> nat) l, sum_by w (map g l) = sum_by (fun x => w (g x)) l.
+Proof. intros X Y g w l. induction l; simpl; [reflexivity | rewrite IHl; reflexivity]. Qed.
+
+Lemma sum_order_tagged : forall {X} (w : X -> nat) (l : list (bool * X)),
+  sum_by w (order_tagged l) = sum_by (fun x => w (snd x)) l.
+Proof.
+  intros X w l. destruct l as [|c r]; [reflexivity|]. simpl. f_equal.
+  rewrite sum_by_app, !sum_by_map. induction r as [|x r IH]; [reflexivity|]. simpl.
+  destruct (fst x); simpl; lia.
+Qed.
+
+Lemma tsize_l_concat : forall l, tsize_l (concat l) = sum_by tsize_l l.
+Proof.
+  induction l as [|x l IH]; [reflexivity|]. simpl. unfold tsize_l in *.
+  rewrite fold_right_app. rewrite IH. clear IH.
+  induction x as [|t x IHx]; simpl; [reflexivity | rewrite IHx; lia].
+Qed.
+
+Lemma tsize_expand0 : forall t, tsize (expand0 t) = tsize t.
+Proof.
+  induction t as [i n kids IH] using tree_ind'. rewrite expand0_T, !tsize_T. f_equal.
+  change (tsize_l ?l) with (sum_by tsize l). rewrite sum_order_tagged, sum_by_map. simpl.
+  induction kids as [|c r IHr]; [reflexivity|]. inversion IH; subst. simpl. rewrite H1, IHr; auto.
+Qed.
+
+Lemma sum_le : forall {X} (f g h : X -> nat) B l,
+  (forall x, In x l -> f x <= g x + h x * B) -> sum_by f l <= sum_by g l + sum_by h l * B.
+Proof.
+  intros X f g h B l H. induction l as [|x l IH]; simpl; [lia|].
+  assert (A := H x (or_introl eq_refl)).
+  assert (IH' : sum_by f l <= sum_by g l + sum_by h l * B) by (apply IH; intros; apply H; right; auto).
+  nia.
+Qed.
+
+Lemma nrefs_ref_pos : forall c k, ref_key c = Some k -> 1 <= nrefs c.
+Proof.
+  intros [i n kids] k H. unfold ref_key in H. simpl in H. rewrite nrefs_T.
+  destruct n; try discriminate. simpl. lia.
+Qed.
+
+Lemma tsize_children_le : forall t, tsize_l (t_children t) <= tsize t.
+Proof. intros [i n kids]. rewrite tsize_T. simpl. lia. Qed.
+
+(* one level: every reference adds at most B, the largest expansion one level below *)
+Lemma size_step : forall lk d B,
+  (forall k doc, lk k = Some doc -> tsize (expand lk d doc) <= B) ->
+  forall t, tsize (expand lk (S d) t) <= tsize t + nrefs t * B.
+Proof.
+  intros lk d B HB. induction t as [i n kids IH] using tree_ind'.
+  rewrite expand_T, !tsize_T, nrefs_T, tsize_l_concat, sum_order_tagged, sum_by_map. simpl.
+  assert (S1 : sum_by (fun c => tsize_l (child_spec lk (S d) c)) kids
+               <= sum_by tsize kids + sum_by nrefs kids * B).
+  { apply sum_le. intros c Hc. unfold child_spec. destruct (ref_key c) as [k|] eqn:RK.
+    - assert (P := nrefs_ref_pos _ _ RK). destruct (lk k) as [doc|] eqn:L.
+      + assert (A := tsize_children_le (expand lk d doc)). assert (A2 := HB _ _ L).
+        assert (B <= nrefs c * B) by nia. lia.
+      + unfold tsize_l. cbn [fold_right]. rewrite tsize_expand0. lia.
+    - unfold tsize_l. cbn [fold_right]. rewrite Forall_forall in IH. assert (A := IH _ Hc). lia. }
+  change (tsize_l kids) with (sum_by tsize kids).
+  change (fold_right (fun c a => nrefs c + a) 0 kids) with (sum_by nrefs kids).
+  destruct (is_ref_node n); nia.
+Qed.
+
+(* C17_size_bound *)
+Theorem size_bound : forall lk s r,
+  (forall k doc, lk k = Some doc -> tsize doc <= s /\ nrefs doc <= r) ->
+  forall d t, tsize t <= s -> nrefs t <= r -> tsize (expand lk d t) <= bound s r d.
+Proof.
+  intros lk s r HL. induction d as [|d IH]; intros t Hs Hr.
+  - rewrite expand_depth0, tsize_expand0. exact Hs.
+  - assert (A := size_step lk d (bound s r d)
+                  (fun k doc L => IH doc (proj1 (HL _ _ L)) (proj2 (HL _ _ L))) t).
+    assert (M : nrefs t * bound s r d <= r * bound s r d) by (apply Nat.mul_le_mono_r; exact Hr).
+    cbn [bound]. lia.
+Qed.
+
+Lemma bound_pow : forall s r d, bound s r d <= s * (r + 1) ^ d.
+Proof.
+  intros s r d. induction d as [|d IH]; simpl; [lia|].
+  assert (P : 1 <= (r + 1) ^ d) by (assert (Q := Nat.pow_nonzero (r + 1) d); lia).
+  nia.
+Qed.
+
+(* the bound is linear in the depth when there is at most one reference per note (chains,
+   single self-loops, rings): why depth 255 is feasible exactly there *)
+Lemma bound_linear : forall s d, bound s 1 d = s * (d + 1).
+Proof. intros s d. induction d as [|d IH]; simpl; [lia | rewrite IH; lia]. Qed.
